@@ -212,7 +212,7 @@ theorem written_reads_back (hard : Bool) (w : Int) (W : Nat) (hW : 0 < W)
     rw [h0] at this
     simp at this
     omega
-  refine ⟨hW, ?_, ?_, ?_, ?_⟩
+  refine ⟨Or.inl hW, ?_, ?_, ?_, ?_⟩
   · intro lr hlr
     have hlr : lr ∈ (r0 :: rs).map fun r => lrecOf w r.1 r.2.1 r.2.2 := by simpa using hlr
     obtain ⟨r, hr, rfl⟩ := List.mem_map.1 hlr
